@@ -391,6 +391,30 @@ func (w *world) templateImport() string {
 	return res
 }
 
+// templateDataTypes: the Go types of the fields substituted into the page templates (a `template.HTML`-like type
+// would switch the contextual escaper off).
+func (w *world) templateDataTypes() [][2]string {
+	var out [][2]string
+	p := w.pkgs["pkg/provider"]
+	if p == nil {
+		return out
+	}
+	for _, name := range []string{"authResponseForm", "LogoutResponseForm"} {
+		obj := p.Types.Scope().Lookup(name)
+		if obj == nil {
+			continue
+		}
+		st, ok := obj.Type().Underlying().(*types.Struct)
+		if !ok {
+			continue
+		}
+		for i := 0; i < st.NumFields(); i++ {
+			out = append(out, [2]string{name + "." + st.Field(i).Name(), st.Field(i).Type().String()})
+		}
+	}
+	return out
+}
+
 // ---- struct tags
 
 type tagFact struct {
@@ -685,6 +709,14 @@ func (w *world) emitFacts() string {
 	emitTmpl("postTemplate", post)
 	emitTmpl("logoutTemplate", logout)
 	fmt.Fprintf(&sb, "def templatePkg : String := %s\n\n", leanStr(w.templateImport()))
+	sb.WriteString("def templateDataTypes : List (String × String) := [")
+	for i, kv := range w.templateDataTypes() {
+		if i > 0 {
+			sb.WriteString(", ")
+		}
+		fmt.Fprintf(&sb, "(%s, %s)", leanStr(kv[0]), leanStr(kv[1]))
+	}
+	sb.WriteString("]\n\n")
 	sb.WriteString("def deps : List (String × String) := [")
 	for i, kv := range depVersions(repoRoot) {
 		if i > 0 {
